@@ -334,9 +334,20 @@ func readRowsT[T any](f *parquet.File, from int64) ([]T, error) {
 func (p *fparams) readRows(f *parquet.File, from int64) ([]rowP, error) {
 	if p.Dict {
 		r, err := readRowsT[rowD](f, from)
-		return fromD(r), err
+		return canon(fromD(r)), err
 	}
-	return readRowsT[rowP](f, from)
+	r, err := readRowsT[rowP](f, from)
+	return canon(r), err
+}
+
+// canon: an empty list reads back as an empty, not a nil, slice
+func canon(rows []rowP) []rowP {
+	for i := range rows {
+		if len(rows[i].Tags) == 0 {
+			rows[i].Tags = nil
+		}
+	}
+	return rows
 }
 
 // touchAll opens the file and reads everything a reader can read: footer,
@@ -1137,7 +1148,10 @@ func missingKey(c *core.Ctx, p *fparams, rows []rowP, data []byte) bool {
 			}
 		}
 	})
-	if o2.failed() {
+	if o2.Err != nil && strings.HasPrefix(o2.Err.Error(), "open:") {
+		c.Violation("missing-key-open-aborts", fmt.Sprintf("reader whose key retriever answers ErrKeyNotFound for column \"name\": OpenFile fails (%v) although the contract of ErrKeyNotFound is to leave only that column inaccessible; file %s", o2.Err, p), map[string]any{"kind": "missing-key", "params": p})
+		ok = false
+	} else if o2.failed() {
 		c.Violation("missing-key-columns", fmt.Sprintf("reader without the key of column \"name\": err=%v panic=%q; file %s", o2.Err, o2.Panic, p), map[string]any{"kind": "missing-key", "params": p})
 		ok = false
 	}
@@ -1638,6 +1652,7 @@ func run(c *core.Ctx) {
 		}
 	}
 	// (a)(b)(c)
+	t0 := time.Now()
 	nFiles := c.N(48, 400)
 	var vm []string
 	for i := 0; i < nFiles; i++ {
@@ -1651,11 +1666,14 @@ func run(c *core.Ctx) {
 			vm = append(vm, vmCases(c, p)...)
 		}
 	}
+	t1 := time.Now()
 	scenarioBeginRowGroup(c)
 	scenarioStrippedSignature(c)
 	scenarioPageOrdinals(c)
+	t2 := time.Now()
 	// (d)
 	tamperEnumeration(c)
+	c.Note("wall: files %.1fs, scenarios %.1fs, tamper %.1fs", t1.Sub(t0).Seconds(), t2.Sub(t1).Seconds(), time.Since(t2).Seconds())
 
 	c.Vm("From Coq Require Import List ZArith NArith.\nFrom PQ Require Import Base.Bytes Aad.Model.\nImport ListNotations.\nOpen Scope N_scope.")
 	c.Vm("Definition cases : list (bytes * bytes * Z * Z * Z * Z * bytes) := [\n  " + strings.Join(vm, ";\n  ") + "].")
